@@ -52,6 +52,10 @@ def run_program_case(case, prop: str, focus_kinds=None):
             if prop in t.props:
                 t.site.setdefault("step_index", min(i, 3))
                 raise
+            if getattr(t, "from_invariant", False):
+                # another property's invariant is violated but this step's own oracle passed: go on
+                labels.append("continued-after-foreign-invariant:" + "+".join(t.props))
+                continue
             labels.append("abandoned-after-foreign:" + "+".join(t.props))
             if prop in ("C07", "C13"):
                 # the step oracle of another property fired first; the state it left behind is still
